@@ -367,6 +367,8 @@ def run_check(prop, tier, seed):
                 known_lines.append("KNOWN-FINDING: property=%s %s (%d cases, e.g. %s)" % (
                     pid, open_ids[cid]["what"], len(group), canon(group[0]["case"])[:160]))
                 continue
+            if os.environ.get("VERIF_DEBUG"):
+                sys.stderr.write("unclassified spec failure before shrinking: %s | %s\n" % (group[0]["spec"], canon(group[0]["case"])[:3000]))
             r = shrink(prop, group[0])
             path = write_replay(pid, seed, "S%d" % len(violations), {
                 "property": pid, "seed": seed, "kind": "spec-fails-on-implementation", "class": cid,
